@@ -869,16 +869,7 @@ class Engine:
             return self._simple(fi, stmt, st, depth, act)
         if isinstance(stmt, ast.Assert):
             def act(s, ch):
-                c = ev(stmt.test, s, ch)
-                tv = self._decide(c, s)
-                if tv is True:
-                    return None
-                if tv is False:
-                    raise _RaiseSignal("AssertionError", None, stmt)
-                k = ch.choose(2)
-                s.conds.append((c, k == 0, stmt, fi))
-                self._learn(c, k == 0, s)
-                if k == 1:
+                if not self._cond(stmt.test, s, fi, depth, ch, stmt):
                     raise _RaiseSignal("AssertionError", None, stmt)
 
             return self._simple(fi, stmt, st, depth, act)
@@ -886,13 +877,7 @@ class Engine:
             out = []
 
             def act(s, ch):
-                c = ev(stmt.test, s, ch)
-                tv = self._decide(c, s)
-                if tv is None:
-                    k = ch.choose(2)
-                    tv = k == 0
-                    s.conds.append((c, tv, stmt, fi))
-                    self._learn(c, tv, s)
+                tv = self._cond(stmt.test, s, fi, depth, ch, stmt)
                 return ("branch", tv, s)
 
             for kind, val, s in self._simple(fi, stmt, st, depth, act):
@@ -1178,13 +1163,7 @@ class Engine:
             nxt = []
             for s in frontier:
                 def act(sb, ch):
-                    c = self._eval(stmt.test, sb, fi, depth, ch)
-                    tv = self._decide(c, sb)
-                    if tv is None:
-                        k = ch.choose(2)
-                        tv = k == 0
-                        sb.conds.append((c, tv, stmt, fi))
-                        self._learn(c, tv, sb)
+                    tv = self._cond(stmt.test, sb, fi, depth, ch, stmt)
                     return ("branch", tv, sb)
 
                 for kind, val, s1 in self._simple(fi, stmt, s, depth, act):
@@ -1374,6 +1353,49 @@ class Engine:
             del s.known[k]
 
     # conditions ----------------------------------------------------------------
+    def _cond(self, node, s: _State, fi, depth, ch, stmt) -> bool:
+        """decide a branch condition.  `not`, `and`, `or` are executed as the short-circuit control flow they are
+        (an operand that is not reached is not evaluated, one path per way the condition can come out), so the
+        recorded decisions are atomic: `if a or b`, `if a: .. elif b:`, `if not (not a and not b)` and two
+        consecutive guards all record the same facts on the same paths."""
+        if isinstance(node, ast.UnaryOp) and isinstance(node.op, ast.Not):
+            return not self._cond(node.operand, s, fi, depth, ch, stmt)
+        if isinstance(node, ast.BoolOp):
+            if isinstance(node.op, ast.And):
+                for v in node.values:
+                    if not self._cond(v, s, fi, depth, ch, stmt):
+                        return False
+                return True
+            for v in node.values:
+                if self._cond(v, s, fi, depth, ch, stmt):
+                    return True
+            return False
+        c = self._eval(node, s, fi, depth, ch)
+        # the same decomposition for conditions that reach us as terms (a helper that returned `a and b`)
+        return self._cond_term(c, s, ch, stmt, fi)
+
+    def _cond_term(self, c, s: _State, ch, stmt, fi) -> bool:
+        if c[0] == "unop" and c[1] == "not":
+            return not self._cond_term(c[2], s, ch, stmt, fi)
+        if c[0] == "call" and c[1] == ("ext", "bool") and len(c[2]) == 1 and not c[3]:
+            return self._cond_term(c[2][0], s, ch, stmt, fi)
+        if c[0] == "bool":
+            if c[1] == "and":
+                for x in c[2]:
+                    if not self._cond_term(x, s, ch, stmt, fi):
+                        return False
+                return True
+            for x in c[2]:
+                if self._cond_term(x, s, ch, stmt, fi):
+                    return True
+            return False
+        tv = self._decide(c, s)
+        if tv is None:
+            tv = ch.choose(2) == 0
+            s.conds.append((c, tv, stmt, fi))
+            self._learn(c, tv, s)
+        return tv
+
     def _decide(self, c, s: _State) -> t.Optional[bool]:
         tv = truthy(c)
         if tv is not None:
@@ -1614,7 +1636,11 @@ class Engine:
                     if s.events[i].kind == "call" and s.events[i].coro and s.events[i].result == v:
                         del s.events[i]
                         break
-                return self._call_function(v[1], v[2], v[3], v[4], node, s, fi, depth, ch, awaited=True)
+                res = self._call_function(v[1], v[2], v[3], v[4], node, s, fi, depth, ch, awaited=True)
+                # a coroutine analysed in place suspends at its own awaits, not at this one
+                if any(x.kind == "call" and x.inlined and x.node is node for x in s.events) and e in s.events and e.raised is None:
+                    s.events.remove(e)
+                return res
             return ("await", v)
         if isinstance(node, ast.Lambda):
             cid = next(self._seq)
@@ -1892,13 +1918,7 @@ class Engine:
                 self._assign(g.target, el, s, fi, depth, ch)
                 keep = True
                 for cnode in g.ifs:
-                    c = self._eval(cnode, s, fi, depth, ch)
-                    tv = self._decide(c, s)
-                    if tv is None:
-                        tv = ch.choose(2) == 0
-                        s.conds.append((c, tv, cnode, fi))
-                        self._learn(c, tv, s)
-                    if not tv:
+                    if not self._cond(cnode, s, fi, depth, ch, cnode):
                         keep = False
                         break
                 if keep:
@@ -1998,6 +2018,15 @@ class Engine:
                 tv = self._decide(args[0], s)
                 if tv is not None:
                     return const(tv)
+            if name == "map" and len(args) == 2 and not kwargs:
+                # map(f, X)  ==  (f(x) for x in X)
+                msite = self.site(node, fi, s)
+                el = _elem_term(args[1], msite, 0, symbolic_index=True)
+                n0 = len(s.events)
+                elt = self._call_function(args[0], (el,), (), msite, node, s, fi, depth, ch)
+                for e_ in s.events[n0:]:
+                    e_.in_comp = True
+                return ("comp", "gen", elt, ((el, args[1], ()),), msite)
             if name in ("any", "all") and len(args) == 1 and not kwargs and args[0][0] in ("tuple", "list") \
                     and not any(x[0] == "starred" for x in args[0][1]):
                 if not args[0][1]:
